@@ -213,6 +213,12 @@ def _tree_job(args):
                     # regex_exclusions given while `exclusions` is left at its default: the library may refuse the combination
                     # (the two options are documented as mutually exclusive) - but if it answers, the regexes must have been applied
                     kw = dict(regex_exclusions=rxs)
+                if not forced and not use_regex and rng.random() < 0.08:
+                    # a long tuple: 100-130 patterns that match nothing in front of the real ones (every pattern of the tuple counts)
+                    globs = tuple("zzzzNEVER%03dzzzz*" % i0 for i0 in range(rng.choice([100, 101, 130]))) + globs
+                    rxs = tuple(conv(g) for g in globs)
+                    kw = dict(exclusions=globs)
+                    out["stats"]["exclusion_tuples_with_more_than_100_patterns"] = out["stats"].get("exclusion_tuples_with_more_than_100_patterns", 0) + 1
                 if forced == "glob":
                     globs, use_regex, raw_regex, regex_only = (p_both,), False, False, False
                     rxs = tuple(conv(g) for g in globs)
